@@ -107,8 +107,12 @@ class Exec:
         """read attributes one call; returns (rvname, {type: bytes or None})"""
         r = self.call('C_GetAttributeValue', s=s, o=o, tmpl=[{'t': self.ck[t], 'buf': cap} for t in types])
         out = {}
+        # per-attribute lengths are only meaningful for these return codes; otherwise the library may not have touched them
+        trust = r['rvname'] in ('CKR_OK', 'CKR_ATTRIBUTE_SENSITIVE', 'CKR_ATTRIBUTE_TYPE_INVALID', 'CKR_BUFFER_TOO_SMALL')
         for t, e in zip(types, r.get('tmpl', [])):
-            out[t] = bytes.fromhex(e['data']) if (e.get('len', -1) != -1 and 'data' in e) else None
+            out[t] = bytes.fromhex(e['data']) if (trust and e.get('len', -1) != -1 and e.get('len', -1) <= cap and 'data' in e) else None
+        if not trust:
+            for t in types: out.setdefault(t, None)
         return r['rvname'], out
     def findall(self, s, tmpl=(), batch=64):
         r = self.call('C_FindObjectsInit', s=s, tmpl=self.T(tmpl))
